@@ -35,7 +35,9 @@ ENCODER.  `Marshal` (encode.go:60) takes a pooled encoder and calls `enc.Reset` 
   * `*LocalizedTime`     -> registered extension id 1 (/repo/internal/time.go:11): `makeExtEncoder`
                             (ext.go:71-94) writes `encodeExtLen(len(b))` (ext.go:176-196: `d4..d8` for
                             lengths 1,2,4,8,16, else `c7 l` / `c8` + 2 / `c9` + 4), the id byte, then
-                            `b = GobEncode() = time.MarshalBinary()`.  The payload has 15 bytes
+                            `b = (*LocalizedTime).MarshalMsgpack()` (/repo/internal/time.go:26-41):
+                            `GobEncode() = time.MarshalBinary()` except for a negative zone offset
+                            with a seconds component (see below).  The payload has 15 bytes
                             (version 1: header `c7 0f 01`) or 16 bytes (version 2: header `d8 01`,
                             i.e. FIXEXT16).
   `replaceTimes` makes slices with `make` and maps with `CopyMap`, so no nil slice / nil map (which
@@ -46,7 +48,16 @@ component), 8 bytes seconds since 1 Jan of year 1 (= Unix seconds + 62135596800)
 nanoseconds, 2 bytes zone offset in MINUTES as int16 where -1 stands for the UTC location, and in
 version 2 one more byte: the seconds of the offset as int8.  Division and remainder are Go's
 (truncating).  An offset whose minutes are -1 (offsets -119..-60 seconds) or outside int16 makes
-`MarshalBinary` (hence `Encode`) FAIL ("unexpected zone offset").
+`MarshalBinary` FAIL ("unexpected zone offset").  This standard layout is `gobTimeStd`.
+
+`(*LocalizedTime).MarshalMsgpack` (/repo/internal/time.go:26-41, REPAIRED) uses the standard layout
+only when `offset >= 0 || offset%60 == 0`.  For a negative offset that is not a whole number of
+minutes it writes version 2 with minutes := offset/60 - 1 (Go's truncating division; = floor for
+these offsets) as int16 big endian — `byte(min>>8), byte(min)`, no range check — and seconds :=
+offset - minutes*60, which lies in 1..59; the instant comes from `tm.UTC().GobEncode()`.  The reason:
+`UnmarshalBinary` reads the seconds byte UNSIGNED, so the standard layout (seconds int8, negative)
+does not round-trip there (see below), and it refuses -119..-61 altogether.  `gobTime` is this
+encoder.  The offset -60 s still goes to `MarshalBinary` and is still refused (`Encode` fails).
 
 The model's `.ltime ns off` is (UnixNano, zone offset in seconds) — what the harness compares
 (/verif/harness/val.go:43-45).  The harness builds a time with offset 0 in `time.UTC` and any other
@@ -90,9 +101,10 @@ these.
 `time.UnmarshalBinary` (time/time.go:1327-1372): version 1 needs exactly 15 bytes, version 2 exactly
 16; offset = int16 minutes * 60, plus — version 2 — `int(buf[2])` where `buf[2]` is a BYTE: the
 seconds are read UNSIGNED although `MarshalBinary` wrote an int8.  So a NEGATIVE offset with a
-seconds component does not round-trip through Go (-3630 s comes back as -3374 s; checked by running
-Go 1.23.5).  The model follows the library; the round-trip theorem excludes those offsets
-(`TimeOK`).  offset = -60 means UTC (offset 0 in the model), anything else `FixedZone("",offset)` or
+seconds component does not round-trip through Go's own pair (-3630 s comes back as -3374 s; checked
+by running Go 1.23.5) — which is why clover's `MarshalMsgpack` does not use `MarshalBinary` there.
+With the repaired encoder every offset in -1966080 .. 1966079 except -60 round-trips (`TimeOK`,
+`gobDecode_gobTime` in Clover/Proofs/Msgpack.lean).  offset = -60 means UTC (offset 0 in the model), anything else `FixedZone("",offset)` or
 `Local` when it coincides with the local offset — the same (ns, offset) either way. -/
 namespace CV.Msgpack
 open CV
@@ -156,10 +168,10 @@ def encExtLen (l : Nat) : Bytes :=
 def unixToInternal : Int := 62135596800
 
 /-- `time.Time.MarshalBinary` (time/time.go:1279-1324) of the instant `ns` (Unix nanoseconds) in a
-    zone `off` seconds east of UTC; offset 0 is the UTC location (marker -1).  When Go's
-    `MarshalBinary` fails (minutes = -1 or outside int16) the bytes written here are meaningless:
-    those offsets are excluded by `TimeOK`. -/
-def gobTime (ns off : Int) : Bytes :=
+    zone `off` seconds east of UTC — the STANDARD layout; offset 0 is the UTC location (marker -1).
+    When Go's `MarshalBinary` fails (minutes = -1 or outside int16) the bytes written here are
+    meaningless. -/
+def gobTimeStd (ns off : Int) : Bytes :=
   let sec : Int := ns / 1000000000 + unixToInternal
   let nsec : Int := ns % 1000000000
   let r : Int := goMod off 60
@@ -168,6 +180,20 @@ def gobTime (ns off : Int) : Bytes :=
     1 :: (be (ofInt64 sec) 8 ++ (be nsec.toNat 4 ++ be (q % 65536).toNat 2))
   else
     2 :: (be (ofInt64 sec) 8 ++ (be nsec.toNat 4 ++ (be (q % 65536).toNat 2 ++ be (r % 256).toNat 1)))
+
+/-- `(*LocalizedTime).MarshalMsgpack` (/repo/internal/time.go:26-41): the standard layout when
+    `offset >= 0 || offset%60 == 0`; otherwise version 2 with the minutes rounded DOWN
+    (`offset/60 - 1`, truncating division) and the seconds `offset - min*60` in 1..59.  Where Go
+    fails (offset -60: `MarshalBinary` refuses; minutes outside int16 in the standard branch) the
+    bytes written here are meaningless: those offsets are excluded by `TimeOK`. -/
+def gobTime (ns off : Int) : Bytes :=
+  if 0 ≤ off ∨ goMod off 60 = 0 then gobTimeStd ns off
+  else
+    let sec : Int := ns / 1000000000 + unixToInternal
+    let nsec : Int := ns % 1000000000
+    let min : Int := goDiv off 60 - 1
+    let s : Int := off - min * 60
+    2 :: (be (ofInt64 sec) 8 ++ (be nsec.toNat 4 ++ (be (min % 65536).toNat 2 ++ be (s % 256).toNat 1)))
 
 /-- the extension id under which `*LocalizedTime` is registered (/repo/internal/time.go:11) -/
 def localizedTimeExt : UInt8 := 1
